@@ -922,7 +922,7 @@ package hashgraph
 //@   ensures[memo]  h.MemoOK()
 //@   ensures[queue] h.PendingRounds == old(h.PendingRounds) && h.PendingRounds.wf() && h.PendingSignatures == old(h.PendingSignatures)
 //@   loop 1 invariant[memo] h.MemoOK()
-//@   callback commitCallback modifies any Block.Body, anymap map[string]string, G_blocks(h.Store), G_bodies(h.Store), G_lastBlock(h.Store), G_pset(h.Store), G_psetOK(h.Store), G_psetFloor(h.Store), G_rep(h.Store), G_fault(h.Store), h.AnchorBlock, anyptr int
+//@   callback commitCallback modifies any Block.Body, anymap map[string]string, anymap map[string]BlockSignature, G_blocks(h.Store), G_bodies(h.Store), G_lastBlock(h.Store), G_pset(h.Store), G_psetOK(h.Store), G_psetFloor(h.Store), G_rep(h.Store), G_fault(h.Store), h.AnchorBlock, anyptr int
 //@   call NewBlockFromFrame assert[index]   __arg(0) == G_lastBlock(h.Store) + 1
 //@   call GetFrame          assert[decided] r.Decided && __arg(0) == r.Index
 //@   ensures[processed-prefix] len(processedRounds) <= old(len(h.PendingRounds.sortedItems)) && (forall k int :: 0 <= k && k < len(processedRounds) ==> processedRounds[k] == old(h.PendingRounds.sortedItems)[k].Index && old(h.PendingRounds.sortedItems)[k].Decided)
